@@ -11,6 +11,7 @@ import (
 	"net/http/httptest"
 	"net/url"
 	"sort"
+	"strconv"
 	"strings"
 
 	"github.com/labstack/echo/v4"
@@ -86,6 +87,7 @@ func rAddRoutes(e *echo.Echo, routes []rRoute, from int, cur *rObs) {
 			cur.PPath = c.Path()
 			cur.Names = append([]string{}, c.ParamNames()...)
 			cur.Values = append([]string{}, c.ParamValues()...)
+			rScribble(c)
 			return c.NoContent(http.StatusOK)
 		}
 		if routes[i].Direct {
@@ -94,6 +96,20 @@ func rAddRoutes(e *echo.Echo, routes []rRoute, from int, cur *rObs) {
 			rAddVia(e, i+len(routes[i].Path), routes[i].Method, routes[i].Path, h)
 		}
 	}
+}
+
+// rScribble: what an application may do to its context at the end of a handler — rename the parameters (as a
+// middleware that normalises names does), overwrite the values, change the path.  None of it may reach the router's
+// own data or a later request.
+func rScribble(c echo.Context) {
+	n := len(c.ParamNames())
+	names, vals := make([]string, n), make([]string, n)
+	for i := range names {
+		names[i], vals[i] = "renamed"+strconv.Itoa(i), "scribbled"+strconv.Itoa(i)
+	}
+	c.SetParamNames(names...)
+	c.SetParamValues(vals...)
+	c.SetPath("/scribbled")
 }
 
 // rRegistrar is the registration surface shared by *echo.Echo and *echo.Group.
@@ -411,6 +427,7 @@ func rMatchLiberal(toks []rTok, path string) bool {
 
 var rLits = []string{"a", "b", "ab", "abc", "users", "x.y", "a-b", "new", "v1"}
 var rParams = []string{":id", ":name", ":x", ":y"}
+
 // every method with its own slot in routeMethods (router.go: the eleven standard ones), custom methods of the
 // anyOther map, and the RouteNotFound pseudo method (must stay last)
 var rMethods = []string{"GET", "POST", "PUT", "DELETE", "OPTIONS", "X-CUSTOM", "PROPFIND", "purge", "Baseline-Control",
@@ -544,7 +561,7 @@ func rGenTable(r *rand.Rand, o rGenOpts) []rRoute {
 	return out
 }
 
-var rValues = []string{"", "a", "ab", "b", "a/b", "a:b", "%41", "\xc3\xa9", "users", "1", "x.y", "new", ":", "*", "abc/", "/"}
+var rValues = []string{"", "a", "ab", "b", "a/b", "a:b", "%41", "\xc3\xa9", "users", "1", "x.y", "new", ":", "*", "abc/", "/", "..", "a/../b", ".", "x/.."}
 
 func rInstancePath(r *rand.Rand, p string) string {
 	toks, _, _ := rNorm(p)
